@@ -259,6 +259,23 @@ def scenarios(ns):
     sc["attrdict_default"] = dict(files={0: old0}, run=s_setitem("JSONAttrDict"), atomic=True)
     sc["dict_plain_nothreads"] = dict(files={0: old0}, run=s_setitem("JSONDict", wc=False, threads=False), atomic=False)
 
+    def s_toggle(enable_after):
+        """the write mode in effect is the one at the time of the SAVE: the object is constructed
+        while the class's threading support is in the other state"""
+        def run(d):
+            cls = _mk(ns, "JSONDict")
+            if enable_after:
+                cls.disable_multithreading()
+                x = cls(filename=path(d, 0))
+                cls.enable_multithreading()
+            else:
+                x = cls(filename=path(d, 0))
+                cls.disable_multithreading()
+            x["new"] = big
+        return run
+    sc["dict_threads_enabled_after_construction"] = dict(files={0: old0}, run=s_toggle(True), atomic=True)
+    sc["dict_threads_disabled_after_construction"] = dict(files={0: old0}, run=s_toggle(False), atomic=False)
+
     def s_list(d):
         x = J.JSONList(filename=path(d, 0))
         x.append(big)
